@@ -56,14 +56,15 @@ type ContractSet struct {
 	Lemmas     []Clause // SMT-level lemmas stated over spec functions (proved once)
 	TypeInvs   map[string][]Clause
 	FieldInvs  map[string][]Clause // "Struct.field" -> invariants over $v (assumed at loads, proved at stores)
+	FieldAsms  map[string][]Clause // lifecycle / configuration facts: assumed at loads in safety mode, never proved
 	Files      []string
 }
 
-var clauseKw = regexp.MustCompile(`^(func|iface|callback|spawn|fieldinv|revent|event|step|uses|assumes|assume|requires|ensures|modifies|loop|invariant|decreases|unroll|trusted|props|safety|noinline|global-invariant|lemma|typeinv|end)\b`)
+var clauseKw = regexp.MustCompile(`^(func|iface|callback|spawn|fieldassume|fieldinv|revent|event|step|uses|assumes|assume|requires|ensures|modifies|loop|invariant|decreases|unroll|trusted|props|safety|noinline|global-invariant|lemma|typeinv|end)\b`)
 
 // LoadContracts reads //@ comment blocks from the given files.
 func LoadContracts(files ...string) (*ContractSet, error) {
-	cs := &ContractSet{Funcs: map[string]*Contract{}, TypeInvs: map[string][]Clause{}, FieldInvs: map[string][]Clause{}, Files: files}
+	cs := &ContractSet{Funcs: map[string]*Contract{}, TypeInvs: map[string][]Clause{}, FieldInvs: map[string][]Clause{}, FieldAsms: map[string][]Clause{}, Files: files}
 	for _, f := range files {
 		if err := cs.loadFile(f); err != nil {
 			return nil, err
@@ -154,7 +155,7 @@ func (cs *ContractSet) loadFile(path string) error {
 				return err
 			}
 			cs.Lemmas = append(cs.Lemmas, c)
-		case "fieldinv":
+		case "fieldinv", "fieldassume":
 			idx := strings.Index(r.text, ":")
 			if idx < 0 {
 				return fmt.Errorf("%s:%d: fieldinv needs 'Struct.field: expr'", path, r.line)
@@ -164,7 +165,11 @@ func (cs *ContractSet) loadFile(path string) error {
 			if err != nil {
 				return fmt.Errorf("%s:%d: %v", path, r.line, err)
 			}
-			cs.FieldInvs[fn] = append(cs.FieldInvs[fn], Clause{Expr: e, Src: strings.TrimSpace(r.text[idx+1:]), Line: r.line})
+			if r.kw == "fieldassume" {
+				cs.FieldAsms[fn] = append(cs.FieldAsms[fn], Clause{Expr: e, Src: strings.TrimSpace(r.text[idx+1:]), Line: r.line})
+			} else {
+				cs.FieldInvs[fn] = append(cs.FieldInvs[fn], Clause{Expr: e, Src: strings.TrimSpace(r.text[idx+1:]), Line: r.line})
+			}
 		case "typeinv":
 			// typeinv T: expr over "self"
 			idx := strings.Index(r.text, ":")
